@@ -283,18 +283,20 @@ func c16Reset(c *Ctx) {
 		g := f.Graph()
 		okAll := false
 		detail := ""
-		for _, cs := range g.Conds(func(e ast.Expr) bool { return core.ExprStr(e) == "success" }) {
+		{
 			clr := nodeCalls(info, "component/outbound/dialer.recordProxySuccess")
 			pts := g.Find(clr)
 			if len(pts) == 0 {
 				detail = "no recordProxySuccess call"
-				continue
+			} else {
+				okAll = true
 			}
-			okAll = true
 			for _, p := range pts {
+				onSuccess := false
 				for _, gd := range g.Guards(p) {
 					s := core.ExprStr(gd.Cond)
 					if s == "success" && gd.Polarity {
+						onSuccess = true
 						continue
 					}
 					if strings.HasSuffix(s, `.Address != ""`) && gd.Polarity {
@@ -303,11 +305,11 @@ func c16Reset(c *Ctx) {
 					okAll = false
 					detail = fmt.Sprintf("the clear is additionally conditional on %q (=%v)", s, gd.Polarity)
 				}
+				if !onSuccess {
+					okAll = false
+					detail = "the clear is not on the success edge"
+				}
 			}
-			// and it is reached on the success edge unless the node has no address
-			var addrB = map[bool]bool{}
-			_ = addrB
-			_ = cs
 		}
 		c.R.Checkf(rule, "success-clears-address-counter", c.pos(f.Pos()), okAll, "every successful report (revival or not, any domain) clears the per-address death counter: three deaths only escalate when no success lies in between%s", func() string {
 			if okAll {
